@@ -163,8 +163,9 @@ def run(ctx, drv):
                 # itself, run on doubles, is left with a rounding-sized pivot above EPSILON (the model's Float run returns the
                 # same garbage): the latter is the recorded known finding, the former is always reported.
                 ctx.fail("singular-system-returns-a-result", inp, x, "singularity signalled", "_math.lsolve")
-                ctx.failures[-1]["input_class"] = ("rounding-leaves-a-pivot-above-EPSILON" if g.startswith("x") and g.strip() == obs.strip()
-                                                   else "pivot-test-does-not-fire")
+                # (the model's own run decides which of the two it is: if the pinned algorithm on doubles also gets past the pivot test
+                # for this matrix, the pivot test is not what is wrong -- whatever digits the two then return)
+                ctx.failures[-1]["input_class"] = "rounding-leaves-a-pivot-above-EPSILON" if g.startswith("x") else "pivot-test-does-not-fire"
         ask(f"lsolveF {mat_w(Amat, wf)} {wlist(b, wf)}", after_float)
         # exact instance + oracle on integer systems
         if kind in ("integer", "diagonal"):
